@@ -9,6 +9,8 @@ import Driver.C04
 import Driver.C13
 import Driver.C12
 import Driver.C14
+import Driver.C16
+import Driver.C17
 
 open Driver
 
@@ -22,7 +24,9 @@ def handlers : List (List String → Option String) := [
   Driver.C04.handle,
   Driver.C13.handle,
   Driver.C12.handle,
-  Driver.C14.handle
+  Driver.C14.handle,
+  Driver.C16.handle,
+  Driver.C17.handle
 ]
 
 def dispatch (toks : List String) : String :=
